@@ -178,7 +178,10 @@ func (r *Recorder) onWrite(w WriteRec) {
 }
 
 // CfgID returns the configuration id of a target under the synthetic model.
-func CfgID(target string) string { return fmt.Sprintf("%s-%s-%s", target, ModelName, ModelVersion) }
+func CfgID(target string) string {
+	typ, ver := ModelOf(target)
+	return fmt.Sprintf("%s-%s-%s", target, typ, ver)
+}
 
 // OnReturn forwards a client-call return to monitors.
 func (r *Recorder) OnReturn(c *Call) {
